@@ -1,9 +1,10 @@
+import Chartparse.Proofs.TrackProofs
 import Chartparse.Proofs.InstProofs
 import Chartparse.Proofs.Round
 import Chartparse.Model.Instrument
 /-! Property theorems of C04 (statements only; helper lemmas live in `Proofs/`). -/
 namespace Chartparse.Props.C04
-open Chartparse Chartparse.Inst Chartparse.F64
+open Chartparse Chartparse.Inst Chartparse.Tempo Chartparse.F64
 
 /-- C04: `round(resolution / 3)` computed through binary64 is the nearest integer for every
     resolution below 2^50 -/
@@ -48,5 +49,14 @@ example : (hopoState (tripletThreshold 100) 133 [false, true, false, false, fals
       (some (100, [true, false, false, false, false]))).toOption = some .strum ∧
     (hopoState (tripletThreshold 100) 133 [false, true, false, false, false] false true
       (some (100, [true, false, false, false, false]))).toOption = some .strum := by decide +kernel
+
+/-- **C04 (track)**: the first note is a tap or a strum, every later note follows the rule as stated, relative to its
+    predecessor in the track -/
+theorem C04_track :
+    ∀ {res evs sps gs prev b s ns} (h : NotesOf res evs sps gs prev b s ns),
+    ∀ i (hi : i < ns.length) (hg : i < gs.length),
+      hopoState (tripletThreshold res) ns[i].tick ns[i].lanes (gs[i].any fun d => d.idx == 6) (gs[i].any fun d => d.idx == 5)
+        (prevOf (if i = 0 then prev else ns[i - 1]?)) = .ok ns[i].hopo :=
+  @Chartparse.Inst.notes_hopo
 
 end Chartparse.Props.C04
